@@ -9,8 +9,8 @@ LONG = "worshipful-company-of-international-tea-merchants.co.uk"  # 55 chars; wi
 SCHEMES = ["http", "https"]
 PORTS = ["", "8080", "80", "443"]
 HOSTS = ["fr", "lemonde.fr", "www.lemonde.fr", "a.www.lemonde.fr", "xlemonde.fr", "evil.com", "fr.evil.com",
-         "lemonde.fr.evil.com", "uk", "co.uk", "a.co.uk", "b.a.co.uk", "c.b.a.co.uk", "a.uk", LONG, "members-area." + LONG]
-PATHS = ["", "/", "/a", "/a/", "/a/b", "/a/b/c", "/ab", "/a/bc", "/a%2Fb"]
+         "lemonde.fr.evil.com", "uk", "co.uk", "a.co.uk", "b.a.co.uk", "c.b.a.co.uk", "a.uk", LONG, "members-area." + LONG, "ck", "www.ck", "blog.www.ck", "x.ck", "a.x.ck"]
+PATHS = ["", "/", "/a", "/a/", "/a/b", "/a/b/c", "/ab", "/a/bc", "/a%2Fb", "//a/b", "//a"]
 TAILS = [("", ""), ("q=1", ""), ("", "f"), ("q=1", "f")]
 _IDX = None
 
@@ -43,11 +43,19 @@ def segs(path):
     return [s for s in path.split("/") if s]
 
 
+def rawsegs(path):
+    """segments of v as they are (only a trailing empty one is dropped: a trailing slash adds nothing below)"""
+    r = path.split("/")[1:]
+    while r and r[-1] == "":
+        r.pop()
+    return r
+
+
 def under(u, v, sa):
     if u["scheme"] != v["scheme"] or u["port"] != v["port"]:
         return False
     hu, hv = units(u["host"], sa), units(v["host"], sa)
-    su, sv = segs(u["path"]), segs(v["path"])
+    su, sv = segs(u["path"]), rawsegs(v["path"])
     if hu == hv:
         if sv[: len(su)] != su:
             return False
@@ -78,8 +86,10 @@ def stems_of(c, sa):
 def judge_pair(u, v, sa, su=None, sv=None):
     su = su or stems_of(u, sa)
     sv = sv or stems_of(v, sa)
-    a = [s for s in su[0] if s != "p:"]
-    b = [s for s in sv[0] if s != "p:"]
+    a = [s for s in su[0] if s != "p:"]  # u's empty path stems aside
+    # in v only the empty stem(s) of a trailing slash are set aside; empty segments before a real one stay
+    last = max([i for i, x in enumerate(sv[0]) if x.startswith("p:") and x != "p:"], default=-1)
+    b = [x for i, x in enumerate(sv[0]) if not (x == "p:" and i > last)]
     un = under(u, v, sa)
     pre = is_prefix(a, b)
     out = []
